@@ -95,6 +95,10 @@ def run(rec, cfg):
 
     MP.attach_parser("C03", {"grammar"})
     rng = cfg.rng("c03")
+    from ..workloads import histories as W8
+    from ..workloads import text as _WT
+
+    W8.two_parsers(rec, rng, _WT.corpus(), "C03", cfg.scale(6, 200))
     bigrams = set()
     for src, s in strings(cfg, rng):
         if cfg.out_of_time():
@@ -135,6 +139,13 @@ def run(rec, cfg):
 
 
 def replay(rec, cfg, w):
+    if w.get("two_parsers"):
+        from ..workloads import histories as _W8
+        from ..workloads import text as _WT2
+
+        MP.attach_parser("C03", {"grammar", "closure"})
+        _W8.two_parsers(rec, cfg.rng("replay-two"), _WT2.corpus(), "C03", 40)
+        return
     from mathy_core.parser import ExpressionParser
 
     MP.attach_parser("C03", {"grammar"})
